@@ -15,9 +15,12 @@ namespace GoVal
     is nil. (A pointer to a struct keeps its pointer: `structValue` wraps it.) -/
 def unwrap : GoVal → GoVal
   | .drop v => unwrap v
-  | .ptr (.struct fs) => .ptr (.struct fs)
-  | .ptr v => unwrap v
   | .nilPtr => .nil
+  | .ptr (.drop v) => unwrap v                -- *T implements the drop interface when T does
+  | .ptr (.struct fs) => .ptr (.struct fs)
+  | .ptr (.range a b) => .ptr (.range a b)    -- values.Range and time.Time are structs too
+  | .ptr (.time u) => .ptr (.time u)
+  | .ptr v => unwrap v
   | v => v
 
 def firstKey : Bytes := [102, 105, 114, 115, 116]
@@ -135,7 +138,7 @@ def indexValue (recv idx : GoVal) : LRes :=
     (match i with
      | .str s => .val ((lookupFields fs s).getD .nil)
      | _ => .val .nil)
-  | .range _ _ | .time _ => .val .nil          -- structs without exported fields
+  | .range _ _ | .time _ | .ptr (.range _ _) | .ptr (.time _) => .val .nil   -- structs without exported fields
   | _ => .val .nil
 where
   indexList (xs : List GoVal) (i : GoVal) : LRes :=
